@@ -215,14 +215,22 @@ def post_roi_shape(args, kw, res, exc, snap):
                cls=f"{len(rr)}d", sig=hsig("shape", tuple(_sl(s) for s in rr)), sample={"roi": [_sl(s) for s in rr], "res": list(res)})
 
 
+def _nonneg_plain(s) -> bool:
+    """like _in_range_norm but start > stop allowed: numpy selects nothing, no clamping or wrapping is involved."""
+    if isinstance(s, (int, np.integer)):
+        return s >= 0
+    return isinstance(s, slice) and s.step in (None, 1) and s.stop is not None and s.stop >= 0 and (s.start or 0) >= 0
+
+
 def post_roi_is_empty(args, kw, res, exc, snap):
     rr, _ = _norm_dims(args[0])
-    if not all(map(_in_range_norm, rr)):
+    if not all(map(_nonneg_plain, rr)):
         return _mon.skip("roi_is_empty", "not-normalised")
     if exc is not None:
         return _mon.fail("roi_is_empty", {"roi": [_sl(s) for s in rr], "exc": exc}, key="empty-raises")
     want = any(len(np.arange(_as_slice(s).stop + 1)[_as_slice(s)]) == 0 for s in rr)
-    _mon.check(bool(res) == want, "roi_is_empty", {"roi": [_sl(s) for s in rr], "res": res}, key="empty", cls="empty" if want else "nonempty",
+    nrev = sum(1 for s in rr if isinstance(s, slice) and (s.start or 0) > s.stop)
+    _mon.check(bool(res) == want, "roi_is_empty", {"roi": [_sl(s) for s in rr], "res": res}, key="empty", cls=("empty" if want else "nonempty") + (f"|reversed-axes={min(nrev, 2)}" if nrev else ""),
                sig=hsig("empty", tuple(_sl(s) for s in rr)))
 
 
@@ -523,6 +531,14 @@ def drive_nd(mon: Monitor, rng: random.Random, count: int) -> None:
         R.roi_intersect3(a, b)
         R.roi_intersect(a, b)
         R.roi_shape(a), R.roi_is_empty(a), R.roi_is_full(a, shape), R.roi_center(a)
+        # emptiness of regions the library itself hands out: pads of regions beyond the image come back reversed (start > stop)
+        off = tuple(slice(n + rng.randint(0, 4), n + rng.randint(0, 6)) if rng.random() < 0.7 else rn(n) for n in shape)
+        for q in (off, tuple(slice(s.stop, s.start) if rng.random() < 0.6 else s for s in a)):
+            try:
+                R.roi_is_empty(q)
+                R.roi_is_empty(R.roi_pad(q, rng.randint(0, 2), shape))
+            except Exception:
+                pass
         if nd == 2:
             R.roi_boundary(a, rng.choice([2, 3, 5]))
         # numpy cross-check on a real N-D array
@@ -613,7 +629,7 @@ def run(mon: Monitor, tier: str, seed: int, shard: int, nshards: int) -> None:
                       ("roi_shape", 500), ("roi_is_empty", 500), ("roi_is_full", 500), ("roi_center", 500), ("scaled_down_roi", 100),
                       ("scaled_up_roi", 100), ("scaled_down_shape", 10), ("roi_from_points", 1000), ("roi_boundary", 100),
                       ("roi_normalise|out-of-range", 50), ("roi_normalise|negative", 50), ("roi_normalise|open", 50), ("roi_normalise|int", 20),
-                      ("roi_from_points|far-outlier", 50), ("roi_from_points|plain", 200), ("roi_from_points|plain+nonfinite", 20),
+                      ("roi_is_empty|empty|reversed-axes=1", 20), ("roi_is_empty|empty|reversed-axes=2", 20), ("roi_from_points|far-outlier", 50), ("roi_from_points|plain", 200), ("roi_from_points|plain+nonfinite", 20),
                       ("roi_from_points.nonfinite", 50), ("slice_intersect3|disjoint", 100), ("slice_intersect3|overlap", 100)]:
             mon.floor(pt, n)
     finally:
